@@ -489,3 +489,31 @@ PROPS["C15"] = dict(
         dict(name="random", pkg="c15", run="TestRandom", checks=dict(quick=160, thorough=3000), shards=16, timeout=dict(quick=400, thorough=2400), shrinktime="60s"),
     ],
 )
+
+PROPS["C20"] = dict(
+    level="exploration",
+    manifest=dict(
+        text=("Randomized concurrent stress under the Go race detector, two layers. (1) Generated concurrent programs (2-8 goroutines x 20-200 "
+              "operations, GOMAXPROCS 2/4/16, yield injection, each program run 3 (thorough 12) times) on every structure the property lists: session "
+              "registry, identifier pool, timeout list, retained trie, subscription trie (incl. Dump/Load), replicated state (local mutators + "
+              "NotifyMsg + LocalState/MergeRemoteState + readers) and the per-session filter list; every goroutine owns a private key space, so the "
+              "post-conditions (all distinct-key effects present, identifiers pairwise distinct while outstanding, every timeout item reported at "
+              "most once and exactly once if never deleted) hold for every schedule. The in-flight table is stressed the same way under C04. "
+              "(2) Whole in-process broker nodes under concurrent load: publishers (QoS 0/1/2), acknowledging subscribers, churning clients "
+              "(connect, subscribe, publish, unsubscribe, DISCONNECT or drop, with wills), a gossip pump with full-state exchanges and expiry sweeps "
+              "all at once; afterwards: acknowledged => delivered, nothing foreign, departed sessions left no trace. A race report or a panic is a "
+              "violation (the program is the replay). Schedules are sampled; absence of races is not shown."),
+        note=("Trusted: Go race detector and toolchain, rapid, the harness. Layer 2 runs on an in-memory message log: the commit-log dependency has "
+              "unsynchronised reads of its own and is not among the structures the property lists. A race report cannot be shrunk; the whole program is kept."),
+        technique="randomized concurrent stress testing of generated programs under the race detector with schedule-independent post-conditions",
+    ),
+    rule=("struct cases: target structure + per-goroutine op lists; storm cases: node/publisher/subscriber/churn counts and switches. Non-trivial: "
+          "struct = >= 2 goroutines operate on the shared instance; storm = >= 3 concurrent actors. Distinct = distinct case. Counter "
+          "program_executions = executions incl. repeats."),
+    assumptions=["every goroutine writes only its own keys (reads go anywhere)", "publishers cut off by the broker's 800 ms hand-over budget under the race detector are not judged (counted)"],
+    runs=[
+        dict(name="regress", pkg="c20", run="TestRegress", race=True, timeout=300),
+        dict(name="structs", pkg="c20", run="TestStructs", race=True, checks=dict(quick=800, thorough=12000), shards=16, timeout=dict(quick=400, thorough=2400)),
+        dict(name="storm", pkg="c20", run="TestStorm", race=True, checks=dict(quick=480, thorough=8000), shards=16, timeout=dict(quick=400, thorough=2400)),
+    ],
+)
